@@ -633,11 +633,7 @@ func rulesC15(c *Ctx) {
 		}
 		var edges []edge
 		nsOf := ssa.Value(nsParam)
-		if p, ok := mu.Key.(*ssa.Phi); ok {
-			for i, e := range p.Edges {
-				edges = append(edges, edge{e, factsOnEdge(facts, p.Block().Preds[i], p.Block())})
-			}
-		} else if hcall := keyHelperCall(mu.Key, mark); hcall != nil {
+		helperEdges := func(hcall *ssa.Call) {
 			// the key is the result of a private resolver h(key, namespace): judge each of its successful returns
 			h := hcall.Call.StaticCallee()
 			hf := factsFor(h)
@@ -653,6 +649,13 @@ func rulesC15(c *Ctx) {
 				}
 				edges = append(edges, edge{r.Results[0], hf.At(r.Block())})
 			}
+		}
+		if p, ok := mu.Key.(*ssa.Phi); ok {
+			for i, e := range p.Edges {
+				edges = append(edges, edge{e, factsOnEdge(facts, p.Block().Preds[i], p.Block())})
+			}
+		} else if hcall := keyHelperCall(mu.Key, mark); hcall != nil {
+			helperEdges(hcall)
 		} else if elems := appendedElems(mu.Key); len(elems) > 0 {
 			// the keys were first collected in a local slice (store only if the whole list is valid):
 			// judge every value appended to it, where it was appended
@@ -661,6 +664,8 @@ func rulesC15(c *Ctx) {
 					for i, e := range p.Edges {
 						edges = append(edges, edge{e, factsOnEdge(facts, p.Block().Preds[i], p.Block())})
 					}
+				} else if hcall := keyHelperCall(el.v, mark); hcall != nil {
+					helperEdges(hcall)
 				} else {
 					edges = append(edges, edge{el.v, facts.At(el.at.Block())})
 				}
